@@ -162,6 +162,7 @@ class ProgramModel:
             elif isinstance(node, ast.Import):
                 for a in node.names:
                     u.imports[a.asname or a.name.split(".")[0]] = a.name if a.asname else a.name.split(".")[0]
+        self._canonical_aliases(u)
         for node in u.tree.body:
             if isinstance(node, ast.ClassDef):
                 self._index_class(u, node, None)
@@ -175,6 +176,34 @@ class ProgramModel:
                 self.module_defs.setdefault(u.mod, []).append(fi)
                 self.functions[fi.qual] = fi
                 self.func_by_name.setdefault(node.name, []).append(fi)
+
+    _STD_ALIASED = ("functools", "dataclasses", "enum", "contextlib", "typing", "abc", "itertools", "operator",
+                    "collections", "types", "statistics", "math", "copy", "re", "string")
+
+    def _canonical_aliases(self, u: Unit) -> None:
+        """`import functools as ft` / `from functools import lru_cache as memo`: the rules that recognise library
+        constructs by name (decorators, field(), auto(), NamedTuple ...) see the canonical spelling - the alias is
+        rewritten in the syntax tree and the canonical name is added to the unit's imports."""
+        ren: dict[str, str] = {}
+        for local, target in list(u.imports.items()):
+            top = target.split(".")[0]
+            if top not in self._STD_ALIASED:
+                continue
+            canon = target if target == top else target.rsplit(".", 1)[-1]
+            if "." in target and target.count(".") > 1:
+                continue
+            if local != canon and u.imports.get(canon, target) == target:
+                ren[local] = canon
+                u.imports[canon] = target
+        if not ren:
+            return
+        assigned = {t.id for n_ in ast.walk(u.tree) for t in ast.walk(n_) if isinstance(t, ast.Name) and isinstance(t.ctx, ast.Store)}
+        params = {a.arg for n_ in ast.walk(u.tree) if isinstance(n_, ast.arguments)
+                  for a in n_.posonlyargs + n_.args + n_.kwonlyargs + ([n_.vararg] if n_.vararg else []) + ([n_.kwarg] if n_.kwarg else [])}
+        for n_ in ast.walk(u.tree):
+            if isinstance(n_, ast.Name) and isinstance(n_.ctx, ast.Load) and n_.id in ren and n_.id not in assigned \
+                    and n_.id not in params:
+                n_.id = ren[n_.id]
 
     def _index_class(self, u: Unit, node: ast.ClassDef, outer: Optional[ClassInfo]) -> None:
         qual = f"{outer.qual}.{node.name}" if outer else f"{u.mod}.{node.name}"
@@ -305,11 +334,17 @@ class ProgramModel:
         return [c for c in self.classes.values()
                 if not c.unit.env and c.name != base_name and base_name in self.base_names(c)]
 
+    dynamic: Any = None      # set by the evaluator: (pm, class, name, what the class bodies say) -> what the built class says
+
     def method(self, ci: ClassInfo, name: str) -> Optional[FuncInfo]:
+        found = None
         for c in self.mro(ci):
             if name in c.methods:
-                return c.methods[name]
-        return None
+                found = c.methods[name]
+                break
+        if ProgramModel.dynamic is not None and not ci.unit.env:
+            return ProgramModel.dynamic(self, ci, name, found)
+        return found
 
     def enum_members(self, ci: ClassInfo) -> dict[str, object]:
         out: dict[str, object] = {}
